@@ -5,6 +5,7 @@ CONSTANTS
   ArgSets <- ArgSetsDefer
   HdrPorts <- Ports16
   HdrChans <- Chans4
+  PlatPackets <- NoPlat
   Links <- LinksBoth
   Cap = 1
   Chained = FALSE
